@@ -5,6 +5,7 @@ import (
 	"go/constant"
 	"go/token"
 	"go/types"
+	"sort"
 	"strings"
 
 	"golang.org/x/tools/go/ssa"
@@ -131,6 +132,17 @@ func checkLanguageSemantics(id string, p *core.Prog, r *core.Report, fns []*ssa.
 						r.Violate(id+".x", key("signed-comparison-of-unsigned"), p.Pos(x.Pos()), "two unsigned quantities ("+ds.D(x.X.(*ssa.Convert).X).String()+", "+ds.D(x.Y.(*ssa.Convert).X).String()+") are compared after conversion to a signed type: a value of 2^63 or more (the far-future sentinel) compares as negative and passes an upper-bound test")
 					}
 				}
+			case *ssa.MakeMap:
+				// (14) a map keyed by a pointer to a plain value (a root, a hash, a number): the key is the address, so two
+				// equal values are two entries — a tally by such a key never counts past 1
+				if mt, ok := x.Type().Underlying().(*types.Map); ok {
+					if pt, ok := mt.Key().Underlying().(*types.Pointer); ok {
+						switch pt.Elem().Underlying().(type) {
+						case *types.Array, *types.Basic:
+							r.Violate(id+".x", key("map-keyed-by-pointer-to-value"), p.Pos(x.Pos()), "this map is keyed by "+mt.Key().String()+", a pointer to a plain value: entries are told apart by address, not by content, so equal values are counted separately")
+						}
+					}
+				}
 			case *ssa.SliceToArrayPointer:
 				at := x.Pos()
 				if !at.IsValid() {
@@ -243,6 +255,200 @@ func checkLanguageSemantics(id string, p *core.Prog, r *core.Report, fns []*ssa.
 		})
 	}
 	_ = token.NoPos
+	checkErrorsAsTargets(id, p, r, fns)
+	checkCloseSeenAsResult(id, p, r, fns)
+}
+
+// checkCloseSeenAsResult: a channel of results (pointers, interfaces) that a goroutine closes — "everybody has
+// finished" — while the function that started it receives from the channel with a plain, single-valued receive: the
+// receive from the closed channel yields nil, and the receiver takes it for a result (and dereferences it).
+func checkCloseSeenAsResult(id string, p *core.Prog, r *core.Report, fns []*ssa.Function) {
+	chanOf := func(v ssa.Value) *ssa.MakeChan {
+		for depth := 0; depth < 6 && v != nil; depth++ {
+			switch x := v.(type) {
+			case *ssa.MakeChan:
+				return x
+			case *ssa.ChangeType:
+				v = x.X
+			case *ssa.FreeVar:
+				if cv := core.CapturedValue(x); cv != nil {
+					v = cv
+				} else {
+					v = core.FreeVarBinding(x)
+				}
+			case *ssa.UnOp:
+				if x.Op != token.MUL {
+					return nil
+				}
+				if fv, ok := x.X.(*ssa.FreeVar); ok {
+					if cv := core.CapturedValue(fv); cv != nil {
+						v = cv
+						continue
+					}
+					return nil
+				}
+				if al, ok := x.X.(*ssa.Alloc); ok {
+					v = core.ReachingStoreAny(al)
+					continue
+				}
+				return nil
+			default:
+				return nil
+			}
+		}
+		return nil
+	}
+	nilable := func(t types.Type) bool {
+		ct, ok := t.Underlying().(*types.Chan)
+		if !ok {
+			return false
+		}
+		switch ct.Elem().Underlying().(type) {
+		case *types.Pointer, *types.Interface, *types.Slice, *types.Map:
+			return true
+		}
+		return false
+	}
+	done := map[*ssa.Function]bool{}
+	n := 0
+	for _, f0 := range fns {
+		top := outermost(f0)
+		if done[top] {
+			continue
+		}
+		done[top] = true
+		family := core.WithClosures(top)
+		// closes made in a function other than the one the channel was made in
+		for _, g := range family {
+			core.EachInstr(g, func(in ssa.Instruction) {
+				ci, ok := in.(ssa.CallInstruction)
+				if !ok {
+					return
+				}
+				b, ok := ci.Common().Value.(*ssa.Builtin)
+				if !ok || b.Name() != "close" || len(ci.Common().Args) != 1 {
+					return
+				}
+				mk := chanOf(ci.Common().Args[0])
+				if mk == nil || !nilable(mk.Type()) || mk.Parent() == g {
+					return
+				}
+				// a single-valued receive of the same channel outside g
+				for _, h := range family {
+					if h == g {
+						continue
+					}
+					core.EachInstr(h, func(x ssa.Instruction) {
+						switch y := x.(type) {
+						case *ssa.UnOp:
+							if y.Op == token.ARROW && !y.CommaOk && chanOf(y.X) == mk {
+								n++
+								r.Violate(id+".x", fmt.Sprintf("%s|close-seen-as-result#%d", core.FnKey(h), n), p.Pos(y.Pos()), "this receive takes whatever arrives for a result, but the channel is closed by the goroutine at "+p.Pos(in.Pos())+" once every sender has finished: the receive then yields nil, which is dereferenced as if it were a result")
+							}
+						case *ssa.Select:
+							for _, st := range y.States {
+								if st.Dir == types.RecvOnly && chanOf(st.Chan) == mk {
+									// is the select's recvOk looked at?
+									okUsed := false
+									if y.Referrers() != nil {
+										for _, ref := range *y.Referrers() {
+											if ex, isEx := ref.(*ssa.Extract); isEx && ex.Index == 1 && ex.Referrers() != nil && len(*ex.Referrers()) > 0 {
+												okUsed = true
+											}
+										}
+									}
+									if !okUsed {
+										n++
+										r.Violate(id+".x", fmt.Sprintf("%s|close-seen-as-result#%d", core.FnKey(h), n), p.Pos(st.Pos), "this select arm takes whatever arrives for a result, but the channel is closed by the goroutine at "+p.Pos(in.Pos())+" once every sender has finished: the arm then fires with nil, which is dereferenced as if it were a result")
+									}
+								}
+							}
+						}
+					})
+				}
+			})
+		}
+	}
+}
+
+// checkErrorsAsTargets: errors.As finds an error of exactly the target's type. Where the module asks for one named
+// error type both as T and as *T, one of the two never matches (the library returns one of them): the form used by
+// the minority of the sites, in the property's packages, is reported.
+func checkErrorsAsTargets(id string, p *core.Prog, r *core.Report, fns []*ssa.Function) {
+	type site struct {
+		f   *ssa.Function
+		pos token.Pos
+		ptr bool
+	}
+	byType := map[string][]site{}
+	for _, f := range p.SrcFuncs() {
+		core.EachInstr(f, func(in ssa.Instruction) {
+			c, ok := in.(*ssa.Call)
+			if !ok || len(c.Call.Args) != 2 {
+				return
+			}
+			n := core.CalleeName(c.Common())
+			if n != "errors.As" && !strings.HasSuffix(n, "pkg/errors.As") {
+				return
+			}
+			tv := c.Call.Args[1]
+			if mi, ok := tv.(*ssa.MakeInterface); ok {
+				tv = mi.X
+			}
+			pt, ok := tv.Type().Underlying().(*types.Pointer)
+			if !ok {
+				return
+			}
+			target := pt.Elem()
+			isPtr := false
+			if tp, ok := target.Underlying().(*types.Pointer); ok {
+				target, isPtr = tp.Elem(), true
+			}
+			nt, ok := target.(*types.Named)
+			if !ok {
+				return
+			}
+			if _, isIface := nt.Underlying().(*types.Interface); isIface {
+				return
+			}
+			k := nt.String()
+			byType[k] = append(byType[k], site{f, c.Pos(), isPtr})
+		})
+	}
+	inScope := map[*ssa.Function]bool{}
+	for _, f := range fns {
+		inScope[f] = true
+	}
+	n := 0
+	var keys []string
+	for k := range byType {
+		keys = append(keys, k)
+	}
+	sort.Strings(keys)
+	for _, k := range keys {
+		nPtr, nVal := 0, 0
+		for _, s := range byType[k] {
+			if s.ptr {
+				nPtr++
+			} else {
+				nVal++
+			}
+		}
+		if nPtr == 0 || nVal == 0 {
+			continue
+		}
+		minorityPtr := nPtr < nVal
+		for _, s := range byType[k] {
+			if s.ptr == minorityPtr && inScope[s.f] {
+				n++
+				form := k
+				if s.ptr {
+					form = "*" + k
+				}
+				r.Violate(id+".x", fmt.Sprintf("%s|errors-as-target-form#%d", core.FnKey(s.f), n), p.Pos(s.pos), fmt.Sprintf("errors.As is asked for %s here, but for the other form at %d other site(s) of the module: an error is found only under the form it was created in, so one of the two never matches (a rejection that should be classified is passed over)", form, map[bool]int{true: nVal, false: nPtr}[s.ptr]))
+			}
+		}
+	}
 }
 
 // appendedFrom: is there an append whose first argument descends from root (through phis and earlier appends)?  When
